@@ -114,6 +114,21 @@ def calls_for(W, rng):
         g.fit(Xin())
         return g, None
 
+    # configuration of the partial adaptation: drawn once per world (attribute of W), so that repeating the call repeats the configuration
+    if not hasattr(W, "map_partial_cfg"):
+        W.map_partial_cfg = (bool(rng.integers(0, 2)), bool(rng.integers(0, 2)), int(rng.integers(0, 2)))
+
+    def gmm_map_partial():
+        # adaptation that leaves some parameter families alone: what is not re-estimated must still be the machine's own copy
+        um, uw, steps = W.map_partial_cfg
+        g = GMMMachine(C, trainer="map", ubm=W.ubm, max_fitting_steps=steps, update_means=um, update_variances=False, update_weights=uw)
+        g.fit(Xin())
+        return g, [g.log_likelihood(X)]
+
+    def gmm_map_unfitted():
+        g = GMMMachine(C, trainer="map", ubm=W.ubm)
+        return g, [g.log_likelihood(X), g.acc_stats(X)]
+
     def gmm_kmeans_init():
         g = GMMMachine(C, k_means_trainer=KMeansMachine(C, init_method=W.cent, max_iter=1), max_fitting_steps=1)
         g.fit(Xin())
@@ -161,6 +176,7 @@ def calls_for(W, rng):
         return [wc, wh], [wc.transform(X), wh.transform(X)]
 
     out = {"kmeans_fit_0": (kmeans(0), []), "kmeans_fit_2": (kmeans(2), []), "gmm_ml_fit": (gmm_ml, []), "gmm_map_fit": (gmm_map, []),
+           "gmm_map_partial_fit": (gmm_map_partial, []), "gmm_map_unfitted_use": (gmm_map_unfitted, []),
            "gmm_kmeans_init_fit": (gmm_kmeans_init, []), "acc_stats_transform": (acc, []), "stats_add": (add, []),
            "stats_iadd": (iadd, ["stats2.n", "stats2.sum_px", "stats2.sum_pxx"]), "linear_scoring": (lin, []), "isv_fit_enroll_score": (isv, []),
            "jfa_fit_enroll_score": (jfa, []), "isv_array_entry_points": (isv_array, []), "ivector_fit_project": (ivec, []), "wccn_whitening": (linear, [])}
